@@ -343,14 +343,27 @@ def e1_configs(t):
                                           prog('c', 1, identifiers='10.0.0.1:25000')])],
                        watch=['A:a', 'A:b', 'A:c'], F=2, crashable=[1, 2], T=3,
                        expect={'A:a': 1, 'A:b': 1, 'A:c': 1}, cost=9))
+    # loss while a stop sequence has unacknowledged requests on the lost instance: the processes are left to that job
+    out.append(e1_base('loss-during-stop', 'RESTART_PROCESS',
+                       apps=[app('A', 0, [prog('a', 1, running_failure_strategy='RESTART_PROCESS',
+                                               identifiers='10.0.0.2:25001,10.0.0.3:25002'),
+                                          prog('b', 1, running_failure_strategy='RESTART_PROCESS',
+                                               identifiers='10.0.0.2:25001,10.0.0.3:25002'),
+                                          prog('c', 1, running_failure_strategy='RESTART_PROCESS',
+                                               identifiers='10.0.0.2:25001,10.0.0.3:25002')])],
+                       watch=['A:a', 'A:b', 'A:c'], mute=[[1, 'A:a', 'stop'], [1, 'A:b', 'stop'], [1, 'A:c', 'stop']],
+                       # (T=2: the loss comes before the stop requests can be given up, after which the processes,
+                       # which really run there, are rightly repaired)
+                       triggers=[['rpc', 0, 'stop_application', ['A', False]]], T=2,
+                       expect=None, max_starts={'A:a': 0, 'A:b': 0, 'A:c': 0}))
     # both iteration orders of the set of lost processes (see world._SET_ORDER)
     for c in [c for c in out if 'mixed' in c['name'] or 'promoted' in c['name']]:
         out.append(dict(c, set_order='rev', name=c['name'] + '-rev'))
     # process crash: application-level strategies only
     out.append(e1_base('crash-RESTART_APPLICATION', 'RESTART_APPLICATION', F=0, faults=[], behaviours=['run', 'stopped', 'exit_bad'],
-                       expect=None, T=3))
+                       expect=None, T=3, crashes=2))
     out.append(e1_base('crash-STOP_APPLICATION', 'STOP_APPLICATION', F=0, faults=[], behaviours=['run', 'stopped', 'exit_bad'],
-                       expect=None, T=3))
+                       expect=None, T=3, crashes=2))
     # loss during a start sequence (the process has a start job planned)
     out.append(e1_base('loss-during-start', 'RESTART_PROCESS', setup=[],
                        triggers=[['rpc', 0, 'start_application', ['CONFIG', 'A', False]]], expect=None, T=4))
